@@ -49,6 +49,12 @@ func init() {
 	mutant(&Mutant{Name: "c10-command-output-file-left-behind", Property: "C10", File: "minify.go",
 		Old: "\t\t\tdefer os.Remove(out.Name())\n", New: "",
 		Rule: "R10.13", Construct: "temporary file out removed before returning"})
+	mutant(&Mutant{Name: "c10-iframe-nesting-unbounded", Property: "C10", File: "html/html.go",
+		Old: "rawTagHash == Iframe && nesting < maxIframeNesting {", New: "rawTagHash == Iframe {",
+		Rule: "R10.14", Construct: "is depth-bounded"})
+	mutant(&Mutant{Name: "c10-iframe-nesting-not-passed-on", Property: "C10", File: "html/html.go",
+		Old: "strconv.Itoa(nesting + 1)", New: "strconv.Itoa(nesting)",
+		Rule: "R10.14", Construct: "passes the depth on"})
 	mutant(&Mutant{Name: "c10-css-function-nesting-unbounded", Property: "C10", File: "css/css.go",
 		Old: "\tif 100 < depth {\n\t\treturn nil, 0 // too deeply nested\n\t}\n", New: "",
 		Rule: "R10.12", Construct: "parseFunction/recursion depth bounded"})
@@ -88,6 +94,8 @@ func runC10(c *Ctx) {
 	c.r1011()
 	c.r1012()
 	c.r1013()
+	c.r1014()
+	c.r1015()
 	// a look-ahead past the end of the input must not index past the token buffer (clause (e) of the token buffer rules)
 	c.alsoUnder(map[string]string{"R03.5": "R10.10", "R05.12": "R10.10", "R06.8": "R10.10"}, func(construct string) bool {
 		return strings.Contains(construct, "index clamped") || strings.Contains(construct, "early ends of the read loop")
